@@ -1,4 +1,29 @@
 TEXT = {
+ 'C01': dict(
+  design_ref='DESIGN.md §4 C01',
+  technique='model-based property testing: rapid-generated FAT12/16/32 operation histories (incl. fill/empty/refill and populate/empty cycles, reopen from bytes, start offsets) executed against the library and an in-memory reference tree; all listings and contents compared after every step',
+  level_text='Stateful generated search with a reference model as oracle; shrunk histories are saved as JSON replays. Exploration: samples histories, sizes and names.',
+  level_note='Trusts the reference tree model (zero-filled gaps, case-insensitive names, mkdir -p) and the generated legal-name domain.'),
+ 'C03': dict(
+  design_ref='DESIGN.md §4 C03',
+  technique='property-based testing on an instrumented device: every component (FAT/ext4 histories driven to refusal, iso9660/squashfs Finalize incl. too-small sizes, GPT/MBR Table.Write, partition streams) runs inside a pattern-filled larger device; every WriteAt is range-checked and guard bytes are compared',
+  level_text='Generated search over component x placement x size x history with a write-log invariant as oracle. Exploration.',
+  level_note='Trusts the harness device (range guard + background pattern comparison).'),
+ 'C04': dict(
+  design_ref='DESIGN.md §4 C04',
+  technique='model-based property testing: rapid-generated ext4 histories (multi-extent growth by interleaved appends, directory growth, short/long symlinks, attributes, fill, reopen) against an in-memory reference tree, compared after every step',
+  level_text='Stateful generated search with a reference model; exploration.',
+  level_note='Trusts the reference tree model (zero-filled gaps, exact names).'),
+ 'C05': dict(
+  design_ref='DESIGN.md §4 C05',
+  technique='property-based testing with the reference implementation as oracle: generated Create parameter sets x histories; e2fsck -f -n after Create and after every step, debugfs rdump at the end compared with the model',
+  level_text='Generated search; the verdict on every step comes from e2fsprogs, an independent implementation. Exploration.',
+  level_note='Trusts e2fsprogs 1.47.0 as installed in the sandbox.'),
+ 'C08': dict(
+  design_ref='DESIGN.md §4 C08',
+  technique='property-based testing with an independent oracle: the C01 history generator drives the library while a harness-side FAT parser (BPB, both FATs, FSInfo, backup boot sector, directory walk, cluster ownership map) re-checks the raw bytes after every step',
+  level_text='Generated histories; after each step the raw image is parsed by a checker that shares no code with the library. Exploration.',
+  level_note='Trusts the harness FAT checker (Microsoft FAT specification layout).'),
  'C02': dict(
   design_ref='DESIGN.md §4 C02',
   technique='property-based testing: generated GPT/MBR tables (sparse unordered indices, 3 spellings, UTF-16 names, >2 TiB sparse disks, rewrites) round-tripped through gpt/mbr/partition.Read and Disk.GetPartition, and cross-checked by an independent GPT/MBR parser (CRCs, backup mirror, protective MBR)',
